@@ -82,7 +82,11 @@ def check_string(s, names, mode, win, out, stream, converse=False):
             # UNC-like: duplicate separators inside a UNC prefix are not "the same path" on Windows, so such strings
             # are not judged, and for clean ones only self-match and "accepts something else" are
             rest = s[2:]
-            if not rest or rest[0] in seps or any(a in seps and b in seps for a, b in zip(rest, rest[1:])):
+            if rest and rest[0] in seps and not any(a in seps and b in seps for a, b in zip(rest.lstrip(seps), rest.lstrip(seps)[1:])):
+                # three or more leading separators are not a UNC prefix, just a root written with redundant separators: the string
+                # must match itself and nothing that differs in another character (equivalent spellings are not judged)
+                prefix_only = True
+            elif not rest or rest[0] in seps or any(a in seps and b in seps for a, b in zip(rest, rest[1:])):
                 return
             prefix_only = True
         elif s[1:2] == ':' and s[0].isalpha():
@@ -234,7 +238,7 @@ WIN_SHAPES = ['c:/', 'c:', 'C:/a', 'c:\\a', '//host/share/', '//host/share/a', '
               '//./c:/a', '//h{a,b}/s|t/a', '//?/GLOBAL/UNC/h/s/a', '//h[a]/s*/x', 'c:a', '/a', '//a']
 
 
-SHAPES = WIN_SHAPES + ['//?/UNC/h[a]/s*/x', '//./UNC/s?v/sh{a,b}/f', '//?/GLOBAL/UNC/h*/s[x]/a', '//?/unc/h*/s?/a', '//?/Unc/h(a)/s|t/a', '//./Global/unc/h!/-s/~',
+SHAPES = WIN_SHAPES + ['///ser*ver/sha?re/x', '///a[bc]d/share/x', '\\\\\\h*/s/x', '////h/s*/x', '///h/s/a*', '///!a/-b/~c','//?/UNC/h[a]/s*/x', '//./UNC/s?v/sh{a,b}/f', '//?/GLOBAL/UNC/h*/s[x]/a', '//?/unc/h*/s?/a', '//?/Unc/h(a)/s|t/a', '//./Global/unc/h!/-s/~',
                        '//?/C:/a*', '//./c:/[a]', 'C:/*', 'c:/a?', '//HOST/SH*RE/a', '//h/s/@(a)', '//?/UNC/h/s/!(a)', '\\\\?\\UNC\\h*\\s\\a', 'c:\\[a]',
                        '//?/GLOBAL/unc/h/s*/a', '//?/global/UNC/h?/s/a', '//host/share/a*', '//?/UNC/h/s', '//?/c:']
 SHAPE_FLAGS = ['CASE', 'IGNORECASE', 'EXTMATCH', 'BRACE', 'SPLIT', 'GLOBSTAR', 'NEGATE']
